@@ -393,8 +393,10 @@ _CONSTANTS = selector_map.SelectorMap()
 # Parse contexts, providing file-isolated import/symbol tables.
 _PARSE_CONTEXTS = [ParseContext()]
 
-# Keeps track of singletons created via the singleton configurable.
+# Keeps track of singletons created via the singleton configurable. The lock is
+# reentrant since a singleton's constructor may itself use other singletons.
 _SINGLETONS = {}
+_SINGLETONS_LOCK = threading.RLock()
 
 # Keeps track of file readers. These are functions that behave like Python's
 # `open` function (can be used a context manager) and will be used to load
@@ -2761,15 +2763,17 @@ def singleton(constructor):
 
 
 def singleton_value(key, constructor=None):
-  if key not in _SINGLETONS:
-    if not constructor:
-      err_str = "No singleton found for key '{}', and no constructor was given."
-      raise ValueError(err_str.format(key))
-    if not callable(constructor):
-      err_str = "The constructor for singleton '{}' is not callable."
-      raise ValueError(err_str.format(key))
-    _SINGLETONS[key] = constructor()
-  return _SINGLETONS[key]
+  with _SINGLETONS_LOCK:  # Lookup-or-construct must be atomic across threads.
+    if key not in _SINGLETONS:
+      if not constructor:
+        err_str = (
+            "No singleton found for key '{}', and no constructor was given.")
+        raise ValueError(err_str.format(key))
+      if not callable(constructor):
+        err_str = "The constructor for singleton '{}' is not callable."
+        raise ValueError(err_str.format(key))
+      _SINGLETONS[key] = constructor()
+    return _SINGLETONS[key]
 
 
 def constant(name, value):
